@@ -37,8 +37,8 @@ def bounds(tier):
     # 'narrow' (selections of <= 1 fact, cut and introduction only) one or two steps deeper
     return tier_param(tier, {'depth': {'wide': 3, 'narrow': 4}, 'state_cap_per_goal': {'wide': 2500, 'narrow': 4000},
                              'library_items': 'logic_base, logic (every prefix of the recorded steps)'},
-                      {'depth': {'wide': 4, 'narrow': 6}, 'state_cap_per_goal': {'wide': 6000, 'narrow': 8000},
-                       'library_items': 'logic_base, logic, nat, set, function, list'})
+                      {'depth': {'wide': 4, 'narrow': 5}, 'state_cap_per_goal': {'wide': 4000, 'narrow': 5000},
+                       'library_items': 'logic_base, logic, set, function'})
 
 
 class Harness:
@@ -442,7 +442,7 @@ def explore_goal(h, goal, tier, agg, prop_id, profile='wide'):
 def library_items(tier):
     import os
     from mc.engine import REPO
-    names = ['logic_base', 'logic'] if tier == 'quick' else ['logic_base', 'logic', 'nat', 'set', 'function', 'list']
+    names = ['logic_base', 'logic'] if tier == 'quick' else ['logic_base', 'logic', 'set', 'function']
     out = []
     for nm in names:
         data = json.load(open(os.path.join(REPO, 'library', nm + '.json'), encoding='utf-8'))
